@@ -5,8 +5,8 @@ import (
 	"errors"
 	"fmt"
 	"strings"
-	"unicode/utf16"
 	gotime "time"
+	"unicode/utf16"
 
 	"verifharness/internal/sim"
 
@@ -22,6 +22,7 @@ type Replica struct {
 	C        *sim.MClient
 	A        *sim.Att
 	Inflight *sim.Inflight
+	Lost     *sim.Inflight // a request whose response was lost; retried later by "Rt"
 }
 
 // Runner executes histories on one server.
@@ -29,19 +30,19 @@ type Runner struct {
 	S         *sim.Server
 	ServerDoc bool // C02/C20: compare server-side rebuilds with a replica fed change by change
 	seq       int
-	Hook   func(r *Run, stepIdx int, st *Step) // optional: called after each step
+	Hook      func(r *Run, stepIdx int, st *Step) // optional: called after each step
 }
 
 // Run is the state of one execution.
 type Run struct {
 	Trace           []sim.CallRec
 	FirstNoPresence bool
-	H       *History
-	R       []*Replica
-	Out     *Outcome
-	DocKey  string
-	Project *types.Project
-	S       *sim.Server
+	H               *History
+	R               []*Replica
+	Out             *Outcome
+	DocKey          string
+	Project         *types.Project
+	S               *sim.Server
 }
 
 var errInjected = errors.New("injected updater failure")
@@ -273,19 +274,19 @@ func (r *Run) exec(ctx context.Context, idx int, st *Step) StepObs {
 		rp.A = a
 		err = e
 	case "D":
-		if !attached || rp.Inflight != nil {
+		if !attached || rp.Inflight != nil || rp.Lost != nil {
 			obs.Skipped = true
 			return obs
 		}
 		err = rp.A.Detach(ctx)
 	case "R":
-		if !attached || rp.Inflight != nil {
+		if !attached || rp.Inflight != nil || rp.Lost != nil {
 			obs.Skipped = true
 			return obs
 		}
 		err = rp.A.Remove(ctx)
 	case "X":
-		if !rp.C.Active || rp.Inflight != nil {
+		if !rp.C.Active || rp.Inflight != nil || rp.Lost != nil {
 			obs.Skipped = true
 			return obs
 		}
@@ -298,15 +299,22 @@ func (r *Run) exec(ctx context.Context, idx int, st *Step) StepObs {
 			obs.Skipped = true
 			return obs
 		}
+		if rp.Lost != nil { // the pending retry comes first
+			second := rp.A.Resend(ctx, rp.Lost.Req, false)
+			rp.Lost = nil
+			if err = second.Apply(); err != nil {
+				break
+			}
+		}
 		err = rp.A.Sync(ctx)
 	case "Sp": // push-only sync
-		if !attached || rp.Inflight != nil {
+		if !attached || rp.Inflight != nil || rp.Lost != nil {
 			obs.Skipped = true
 			return obs
 		}
 		err = rp.A.SyncBegin(ctx, true).Apply()
 	case "Sb":
-		if !attached || rp.Inflight != nil {
+		if !attached || rp.Inflight != nil || rp.Lost != nil {
 			obs.Skipped = true
 			return obs
 		}
@@ -322,8 +330,28 @@ func (r *Run) exec(ctx context.Context, idx int, st *Step) StepObs {
 		}
 		err = rp.Inflight.Apply()
 		rp.Inflight = nil
+	case "Sl": // the server handles the request, the response is lost; the client does not know
+		if !attached || rp.Inflight != nil || rp.Lost != nil {
+			obs.Skipped = true
+			return obs
+		}
+		f := rp.A.SyncBegin(ctx, false)
+		if f.Err != nil {
+			err = f.Err
+			break
+		}
+		r.Trace[len(r.Trace)-1].Lost = true
+		rp.Lost = f
+	case "Rt": // retry of the identical request, response applied
+		if rp.Lost == nil || !attached {
+			obs.Skipped = true
+			return obs
+		}
+		second := rp.A.Resend(ctx, rp.Lost.Req, false)
+		rp.Lost = nil
+		err = second.Apply()
 	case "Sr": // response lost, identical request retried, second response applied
-		if !attached || rp.Inflight != nil {
+		if !attached || rp.Inflight != nil || rp.Lost != nil {
 			obs.Skipped = true
 			return obs
 		}
@@ -475,6 +503,11 @@ func (rn *Runner) RunFull(ctx context.Context, h *History) (*Run, *Outcome) {
 func (r *Run) Finish(ctx context.Context) {
 	n := len(r.H.Steps)
 	for i, rp := range r.R {
+		if rp.Lost != nil {
+			if o := r.Exec(ctx, n, &Step{Op: "Rt", C: i}); o.Err != "" {
+				r.problem("sync-error", n, "client %d (retry of a lost request): %s", i, o.Err)
+			}
+		}
 		if rp.Inflight != nil {
 			if o := r.Exec(ctx, n, &Step{Op: "Se", C: i}); o.Err != "" {
 				r.problem("sync-error", n, "client %d (pending response): %s", i, o.Err)
